@@ -552,7 +552,9 @@ pub fn eval_c20_knn(item: &(DVec3, DVec3, Vec<DVec3>, String)) -> Eval {
     let n = pts.len();
     let mut h = Fnv::new();
     let wmin = width.x.min(width.y).min(width.z);
-    let cws: Vec<f64> = if id.starts_with("knnfine") { vec![0.5 / wmin] } else { vec![0.3, 0.42, 0.5, 0.77, 1.0, 5.0] };
+    // the searches of one particle set run one after the other on this thread, from many grid cells to few and back (a
+    // search must not depend on the grids searched before it)
+    let cws: Vec<f64> = if id.starts_with("knnfine") { vec![0.5 / wmin] } else { vec![0.3, 0.42, 0.5, 0.77, 1.0, 5.0, 1.0, 0.5, 0.3] };
     for cw in cws {
         let max_cell_width = cw * wmin;
         for k in 0..n {
@@ -791,7 +793,22 @@ pub fn run_c20(run: &mut Run) {
             }
             items.push((anchor, width, pts, format!("knn|{}|cluster24+3|{}", bn, cn)));
         }
-        run.family(format!("knn box {}: Kronecker pools of 40{} with <= 1 removed, clusters of 24 inside one grid cell + 3 far particles; every k < n", bn, if thorough { " / 120" } else { "" }), items.len() as u64);
+        // coincident particles (distinct particles at bitwise the same position): pairs and a triple inside a Kronecker
+        // pool of 12, every choice of the doubled particle
+        {
+            let pool = kronecker_points(12, &bx, 3);
+            for a in 0..12 {
+                let mut pts = pool.clone();
+                pts.push(pool[a]);
+                items.push((anchor, width, pts.clone(), format!("knn|{}|K12+dup{}", bn, a)));
+                pts.insert(0, pool[a]);
+                items.push((anchor, width, pts, format!("knn|{}|K12+triple{}", bn, a)));
+            }
+            let mut all2 = pool.clone();
+            all2.extend(pool.iter().copied());
+            items.push((anchor, width, all2, format!("knn|{}|K12-doubled", bn)));
+        }
+        run.family(format!("knn box {}: Kronecker pools of 40{} with <= 1 removed, clusters of 24 inside one grid cell + 3 far particles, pools of 12 with coincident particles (pairs, triples, the whole set doubled); every k < n", bn, if thorough { " / 120" } else { "" }), items.len() as u64);
         run.explore(&items, eval_c20_knn, |i| J::s(i.3.clone()));
     }
     // fine position alphabet in a plane: particles close to cell faces, neighbours one and two cells away
